@@ -56,6 +56,7 @@ type params struct {
 	prop       string
 	steps      int
 	faultEvery int // explore injections on every n-th step (0 = never)
+	faultOps   map[string]bool // if set: only these operation kinds are explored with injections
 	faultMaxK  int // max call indices per explored op (0 = all)
 	routeEvery int // M-route on every n-th successful filter (0 = never)
 	interleave int // interleaved executions per explored step (0 = none)
@@ -96,7 +97,13 @@ func paramsFor(prop, tier string) params {
 	case "C06":
 		p.routeEvery = 1
 		p.faultEvery = 0
-	case "C02", "C03", "C07":
+	case "C02":
+		// C02 does not quantify over faults, but a bind that SUCCEEDS must respect stickiness whatever happened before:
+		// filters are also run with one cleanly failing API call, followed by the bind the scheduler issues if nodes were offered
+		p.faultEvery = 4
+		p.faultOps = map[string]bool{"filter": true}
+		p.routeEvery = 0
+	case "C03", "C07":
 		p.faultEvery = 0
 		p.routeEvery = 0
 	case "C09":
@@ -312,7 +319,7 @@ func runCase(seed int64, idx int, pr params) *caseResult {
 		} else {
 			op = s.nextOp()
 		}
-		explore := pr.faultEvery > 0 && i%pr.faultEvery == pr.faultEvery-1 && injectable(op.Kind)
+		explore := pr.faultEvery > 0 && i%pr.faultEvery == pr.faultEvery-1 && injectable(op.Kind) && (pr.faultOps == nil || pr.faultOps[op.Kind])
 		var pre *Sim
 		if explore {
 			pre, err = s.Clone(evid.NewRng(seed, "pre", idx*1000+i))
@@ -367,6 +374,9 @@ func runCase(seed int64, idx int, pr params) *caseResult {
 			ks := pickIndices(rng, ncalls, pr.faultMaxK)
 			for _, k := range ks {
 				for _, kind := range []world.InjectKind{world.FailAt, world.FailAfter, world.CrashBefore, world.CrashAfter} {
+					if pr.faultOps != nil && kind != world.FailAt {
+						continue // the restricted stage (C02) uses clean failures only
+					}
 					c, err := pre.Clone(evid.NewRng(seed, "inj", idx*100000+i*100+k*4+int(kind)))
 					if err != nil {
 						continue
@@ -394,6 +404,7 @@ func runCase(seed int64, idx int, pr params) *caseResult {
 						// is one (not after a lost reply: there memory and store may legitimately disagree, see C05)
 						if kind == world.FailAt {
 							c.retryElsewhere(op)
+							c.bindAfterFaultyFilter(op)
 							if op.Kind == "reload" && op.Topo != nil && c.ownAlarms() == 0 && c.lastOpErr != nil {
 								// the periodic loop retries the reload; the ConfigMap still holds the new text
 								c.Counts["reload_retries_after_failed_reload"]++
@@ -502,6 +513,23 @@ func (c *Sim) retryElsewhere(op Op) {
 		c.Counts["retries_after_failed_bind_on_other_node"]++
 	}
 	c.exec(Op{Kind: "bind", Pod: op.Pod, Node: node}, nil, nil)
+}
+
+// bindAfterFaultyFilter: a Filter call during which one API call failed cleanly and which nevertheless offered nodes is,
+// for the scheduler, a successful filter: the pod is bound on one of the offered nodes. (A filter that reports the
+// failure is simply retried later; nothing follows here.)
+func (c *Sim) bindAfterFaultyFilter(op Op) {
+	if op.Kind != "filter" || c.ownAlarms() > 0 || len(c.W.In.Hit) == 0 {
+		return
+	}
+	p := c.podByUID(op.Pod)
+	r := c.Pods[op.Pod]
+	if p == nil || r == nil || !world.Live(p) || p.Spec.NodeName != "" || !r.FilterOK || len(r.Offered) == 0 {
+		return
+	}
+	c.Counts["binds_after_filter_that_offered_nodes_despite_api_fault"]++
+	c.frozenSinceFilter, c.lastFilterPod = true, op.Pod
+	c.exec(Op{Kind: "bind", Pod: op.Pod, Node: r.Offered[c.rng.Intn(len(r.Offered))]}, nil, nil)
 }
 
 // execWatched runs exec under a generous wall-clock watchdog (inconclusive on expiry, never a verdict).
